@@ -246,7 +246,7 @@ fn starts(n: usize) -> Vec<St> {
 
 pub fn run(ctx: &Ctx, rep: &Report) {
     let alpha = alphabet();
-    let max_n = if ctx.thorough() { 16 } else { 9 };
+    let max_n = if ctx.thorough() { 24 } else { 12 };
     rep.set_rule("explicit-state BFS; a state is (rows, selected, quit, search mode, sort key, sort order, query length class, width); non-trivial = distinct canonical states reached");
     rep.assume("search_query is abstracted to its length class {0,1,>=2}: update() only pushes/pops/clears it and never branches on its content (cross-checked by an un-abstracted bounded DFS)");
     rep.assume("the table size is fixed during a key sequence (the property's quantifier); starts with selected >= rows are not used");
@@ -319,6 +319,39 @@ pub fn run(ctx: &Ctx, rep: &Report) {
         total_trans += tr.load(std::sync::atomic::Ordering::Relaxed);
     }
     rep.part("unabstracted dfs", seqs, json!({"depth": depth}));
+    // deep un-abstracted DFS over a small alphabet whose characters differ in kind (hex letter, digit, other
+    // letter): the handler must not branch on what has been typed, however long the query gets
+    {
+        let small: Vec<(String, Event)> = alpha.iter().filter(|(n, _)| ["Char(/)", "Char(a)", "Char(1)", "Char(x)", "Char(q)", "Char(j)", "Enter", "Esc", "Backspace"].contains(&n.as_str())).cloned().collect();
+        let deep = if ctx.thorough() { 9 } else { 8 };
+        let names: Vec<&str> = small.iter().map(|(n, _)| n.as_str()).collect();
+        let cnt = std::sync::atomic::AtomicU64::new(0);
+        let tr = std::sync::atomic::AtomicU64::new(0);
+        let s0 = St { n: 3, sel: Some(1), quit: false, search: false, sort: 3, asc: false, query: String::new(), width: 0 };
+        // shard on the first two events
+        par_items(ctx.threads, small.len() * small.len(), |i| {
+            let (i0, i1) = (i / small.len(), i % small.len());
+            let mut path = vec![i0];
+            let r0 = step(&s0, small[i0].1);
+            tr.fetch_add(1, std::sync::atomic::Ordering::Relaxed);
+            if let Some((class, what)) = judge(&s0, names[i0], &r0) {
+                rep.violation(&class, what, json!({"kind": "sequence", "state": s0.to_json(), "events": [names[i0]]}));
+            }
+            if let Ok(t0) = r0 {
+                let r1 = step(&t0, small[i1].1);
+                tr.fetch_add(1, std::sync::atomic::Ordering::Relaxed);
+                path.push(i1);
+                if let Some((class, what)) = judge(&t0, names[i1], &r1) {
+                    rep.violation(&class, what, json!({"kind": "sequence", "state": s0.to_json(), "events": [names[i0], names[i1]]}));
+                }
+                if let Ok(t1) = r1 {
+                    dfs(&t1, &mut path, deep, &small, &names, &s0, rep, &cnt, &tr);
+                }
+            }
+        });
+        total_trans += tr.load(std::sync::atomic::Ordering::Relaxed);
+        rep.part("deep unabstracted dfs, 9-event alphabet", cnt.load(std::sync::atomic::Ordering::Relaxed), json!({"depth": deep}));
+    }
     rep.sample(json!({"events": ["Char(/)", "Char(x)", "Enter", "Char(j)"], "from": "initial state of main(), 3 rows"}));
     rep.state(total_states);
     rep.trans(total_trans);
